@@ -183,6 +183,18 @@ def check_grid(case, ctx):
         ctx.check(f.get(None).shape[1] == Tn, "C13/feature-grid", "time_to_maturity feature uses another grid")
         f = get_feature("moneyness").of(deriv)
         ctx.check(f.get(None).shape[1] == Tn, "C13/feature-grid", "moneyness feature uses another grid")
+        # ... at every single grid point, counted from the start or from the end
+        for fname_ in ("moneyness", "log_moneyness", "underlier_spot"):
+            fb = get_feature(fname_).of(deriv)
+            with ctx.sut("C13/feature"):
+                allsteps = fb.get(None)
+            for i in list(range(Tn)) + list(range(-Tn, 0)):
+                with ctx.sut("C13/feature"):
+                    one = fb.get(i)
+                if not ctx.check(tuple(one.shape) == (case["n_paths"], 1, 1) and bool(((one == allsteps[:, [i]]) | (one.isnan() & allsteps[:, [i]].isnan())
+                                                                                        | ((one - allsteps[:, [i]]).abs() <= 4 * eps * allsteps[:, [i]].abs())).all()),
+                                 "C13/feature-grid", f"{fname_} at grid point {i} (of {Tn}) has shape {tuple(one.shape)} / differs from column {i} of the all-steps form"):
+                    break
         if Tn >= 2:
             hedger = Hedger(Naked(), ["moneyness", "time_to_maturity"])
             with ctx.sut("C13/compute_hedge"):
